@@ -1,9 +1,16 @@
 #!/bin/sh
 # builds the framework from files on disk only (offline)
-set -e
 cd "$(dirname "$0")"
 export CARGO_NET_OFFLINE=true
 mkdir -p .build evidence replays run
-(cd lean && lake build EnvVerif envdrv)
+# the model driver must build
+(cd lean && lake build envdrv) || exit 1
+# the theorem modules: built one by one so that one broken module is reported by the
+# check of its own property instead of stopping the set-up
+for f in lean/EnvVerif/Props/C*.lean; do
+  m=$(basename "$f" .lean)
+  (cd lean && lake build EnvVerif.Props.$m) >/dev/null 2>&1 || echo "setup: EnvVerif.Props.$m does not build (its check will report it)"
+done
 [ -f harness/Cargo.lock ] || cp /repo/Cargo.lock harness/Cargo.lock
-(cd harness && cargo build --release --offline)
+(cd harness && cargo build --release --offline) || exit 1
+exit 0
